@@ -24,7 +24,8 @@ type vxSym struct {
 	// EnFault: what the pwm_enable file does during this cycle: "" works; "refused" = every write fails with EPERM;
 	// "stuck" = the firmware holds the mode at 2 (writes are accepted and ignored)
 	EnFault string `json:"enFault,omitempty"`
-	// PwmFault "refused-once": the first write to the PWM file in this cycle fails (EIO-like), later writes succeed
+	// PwmFault "refused-once": the first write to the PWM file in this cycle fails (EIO-like), later writes succeed;
+	// "unreadable": every read of the PWM file in this cycle fails (the fan then has no PWM sensor feature), writes work
 	PwmFault string `json:"pwmFault,omitempty"`
 }
 
@@ -81,8 +82,13 @@ func (fx *vxFix) vxCycle(s vxSym) vxCycObs {
 			prev := fx.fs.Intercept
 			pwmPath := fx.dev.Pwm
 			refused := false
+			unreadable := s.PwmFault == "unreadable"
 			fx.fs.Intercept = func(kind, path string, value int) *env.Result {
-				if path == pwmPath && kind != "read" && !refused {
+				if unreadable {
+					if path == pwmPath && kind == "read" {
+						return &env.Result{Val: -1, Err: env.ErrIO}
+					}
+				} else if path == pwmPath && kind != "read" && !refused {
 					refused = true
 					return &env.Result{Err: env.ErrInval(path)}
 				}
@@ -207,7 +213,7 @@ func vxCycOracle(prop string, fx *vxFix, h *vxHist, s vxSym, o vxCycObs) [][2]st
 			}
 		}
 		// device must now show the mapped value (write skipped only when already there)
-		if s.PwmFault != "" {
+		if s.PwmFault == "refused-once" {
 			break // a write was refused in this cycle: the device may still hold the previous value
 		}
 		ok := false
@@ -306,7 +312,7 @@ func vxRLE(syms []vxSym) string {
 			e += ",pwm_enable-" + syms[i].EnFault
 		}
 		if syms[i].PwmFault != "" {
-			e += ",pwm-write-" + syms[i].PwmFault
+			e += ",pwm-" + syms[i].PwmFault
 		}
 		fmt.Fprintf(&b, "(%d,%d,%d%s)x%d ", syms[i].Curve, syms[i].Rpm, syms[i].DtMs, e, j-i)
 		i = j
@@ -412,6 +418,10 @@ func vxCycAlphabet(prop string, cfg vxCfg) []vxSym {
 	a = append(a, vxSym{Curve: 128, Rpm: 1000, DtMs: 200, CurveErr: true})
 	// a cycle whose first PWM write is refused (whatever fan2go writes next must still be an output of its map)
 	a = append(a, vxSym{Curve: 100, Rpm: 1000, DtMs: 200, PwmFault: "refused-once"}, vxSym{Curve: 255, Rpm: 1000, DtMs: 200, PwmFault: "refused-once"})
+	// a cycle in which the PWM value cannot be read back
+	if prop != "C02" {
+		a = append(a, vxSym{Curve: 100, Rpm: 1000, DtMs: 200, PwmFault: "unreadable"}, vxSym{Curve: 255, Rpm: 1000, DtMs: 200, PwmFault: "unreadable"})
+	}
 	// cycles in which the control mode cannot be set (both attempts of trySetManualPwm fail)
 	if cfg.Kind == "hwmon" && !cfg.NoEnable {
 		a = append(a, vxSym{Curve: 0, Rpm: 1000, DtMs: 200, EnFault: "refused"}, vxSym{Curve: 128, Rpm: 1000, DtMs: 200, EnFault: "stuck"})
